@@ -9,6 +9,7 @@ from hypothesis import strategies as st
 from refs import bulk_ref as br
 from refs import coordsys as cs
 from vlib import util
+from vlib import defaults
 from vlib.core import Part
 
 PROPERTY = "C13"
@@ -1084,4 +1085,7 @@ PARTS = [
          fuzz=dict(modules=["pyyeti.nastran.bulk"], time=25, time_thorough=300), tmax_thorough=400),
     Part("fuzz_tabled1", oracle_tabled1, strategy=table_cases, quick=(1, 800), thorough=(4, 30000),
          fuzz=dict(modules=["pyyeti.nastran.bulk"], time=25, time_thorough=300), tmax_thorough=400),
+    # documented defaults: leaving a keyword out = passing its documented value (vlib/defaults.py)
+    Part("defaults", defaults.make_oracle("C13"), enum=defaults.make_enum(), quick=(1, None), thorough=(1, None),
+         exhaustive=True),
 ]
